@@ -573,6 +573,7 @@ package xmss
 //@   exit[C06,C01] !iserr(result1) ==> result0[4:36] == R[0:32] && idx == old(idxOf(sk))
 //@   exit[C06,C01,C08] !iserr(result1) ==> result0[36+params.wotsParams.keySize:36+params.wotsParams.keySize+32*params.h] == old(bdsState.auth[0:32*params.h])
 //@   exit[C06,C01] !iserr(result1) ==> skSeed[0:32] == old(sk[4:36]) && pubSeed[0:32] == old(sk[68:100])
+//@   exit[C06,C01,C08] !iserr(result1) ==> (called("xmss.bdsRound", 1) <==> idx < spec.pow2(params.h) - 1) && (called("xmss.bdsTreeHashUpdate", 1) <==> idx < spec.pow2(params.h) - 1)
 //@   assigns sk[0:4], bdsAll(bdsState)
 //@   loop 1 invariant 0 <= i && i <= n && n == 32 && idxOf(sigMsg) == idx
 //@   loop 1 invariant[C06,C01] forall k_ :: 0 <= k_ && k_ < i ==> sigMsg[4+k_] == R[k_]
